@@ -5,7 +5,7 @@
    imported read-only here so that the C04 shards check the ENCODER's bytes (run boundaries, count header)
    and the decoder's output for i32 delta lists and point lists against the real code. *)
 From Coq Require Import ZArith List Bool String.
-From FV Require Import C04.Model C04.Gen.
+From FV Require Import C04.Model C04.Gen C04.Union.
 From FV Require C10.Model.
 Import ListNotations.
 Open Scope Z_scope.
@@ -15,11 +15,39 @@ Inductive c04_case :=
   (* PackedDeltas::new(ds): compiled bytes, what consume_all(bytes).iter() yields *)
 | CDeltas (ds bytes decoded : list Z)
   (* PackedPointNumbers: None = All; compiled bytes; reader: None = "all points" (count 0) or the list *)
-| CPoints (pts : option (list Z)) (bytes : list Z) (decoded : option (list Z)).
+| CPoints (pts : option (list Z)) (bytes : list Z) (decoded : option (list Z))
+  (* round 7: a table WITH offsets.  [bytes] = the real compiled bytes of the table's own fields with every
+     non-null offset field overwritten by 0xFF (the TableData::add_offset placeholder; positions = the real
+     reader's `shape().<f>_byte_range()`), [kids] = for each non-null offset in field order the real bytes of the
+     child found at the offset the real getter returned; [reread] has VBytes child / VNull per offset field. *)
+| CSchemaObj (W R : schema) (written : list value) (bytes : list Z) (kids : list (list Z)) (reread : list value)
+  (* round 7: a value written through a format ENUM (`match self`) and re-read through the enum's `match format`:
+     variant written, its field values, real bytes, variant the real reader chose, its real getters *)
+| CUnion (uw : union_w) (ur : union_r) (variant : string) (written : list value) (bytes : list Z)
+         (variant' : string) (reread : list value).
+
+Fixpoint kids_flat_eqb (a : list obj) (b : list (list Z)) : bool :=
+  match a, b with
+  | [], [] => true
+  | Obj x [] :: r, y :: s => zlist_eqb x y && kids_flat_eqb r s
+  | _, _ => false
+  end.
+
+Definition check_obj (W R : schema) (written : list value) (bytes : list Z) (kids : list (list Z)) (reread : list value) : bool :=
+  (match encode W written with
+   | Some (Obj bs ks) => zlist_eqb bs bytes && kids_flat_eqb ks kids
+   | None => false
+   end) &&
+  (match decode R (Obj bytes (map (fun k => Obj k []) kids)) with
+   | Some vs => values_eqb vs reread
+   | None => false
+   end).
 
 Definition check_any (c : c04_case) : bool :=
   match c with
   | CSchema s => check_case s
+  | CSchemaObj W R written bytes kids reread => check_obj W R written bytes kids reread
+  | CUnion uw ur variant written bytes variant' reread => check_union uw ur variant written bytes variant' reread
   | CDeltas ds bytes decoded =>
       zlist_eqb (FV.C10.Model.encode_deltas ds) bytes &&
       zlist_eqb (FV.C10.Model.decode_deltas_all bytes) decoded
